@@ -125,4 +125,45 @@ impl<'a> Zone<'a> {
         let pair = (unix, self.to_leap(unix)?);
         Ok(Stamp { unix: pair.0 })
     }
+
+    /// correct: one mutable bound reused for the table phase (leap scale) and the rule phase (UTC scale); which
+    /// definitions reach the second phase depends on correlated branches
+    pub fn phase_good(&self, unix: i64) -> Result<usize, ()> {
+        let leap = self.to_leap(unix)?;
+        let mut lower = i64::MIN;
+        let mut n = 0;
+        for t in self.trs {
+            if lower <= leap && leap < t.leap {
+                n += 1;
+            }
+            lower = t.leap;
+        }
+        if let Some(last) = self.trs.last() {
+            lower = self.to_unix(last.leap)?;
+        }
+        if lower <= unix {
+            n += 1;
+        }
+        Ok(n)
+    }
+
+    /// wrong twin: the second phase forgets the conversion
+    pub fn phase_bad(&self, unix: i64) -> Result<usize, ()> {
+        let leap = self.to_leap(unix)?;
+        let mut lower = i64::MIN;
+        let mut n = 0;
+        for t in self.trs {
+            if lower <= leap && leap < t.leap {
+                n += 1;
+            }
+            lower = t.leap;
+        }
+        if let Some(last) = self.trs.last() {
+            lower = last.leap;
+        }
+        if lower <= unix {
+            n += 1;
+        }
+        Ok(n)
+    }
 }
